@@ -94,6 +94,18 @@ def mk_branch(spec, tag, log):
         return AccOdd(tag, spec[1], log)
     if k == "fc_t":
         return (StopAt(spec[1]), Pre(), Acc(tag, spec[2], log), Post())
+    if k == "nested_fc":
+        # a Split whose branches are all fill/compute is itself a fill/compute element
+        return Split([Acc((tag, j), nres, log) for j, nres in enumerate(spec[1:])])
+    if k == "nested_fr":
+        return Split([Req((tag, j), log) for j in range(spec[1])])
+    if k == "nested_src":
+        def mkgen(j):
+            def gen():
+                log.append(((tag, j), "call"))
+                return iter([((tag, j), "src", i) for i in range(2)])
+            return gen
+        return Split([Source(mkgen(j)) for j in range(spec[1])])
     if k == "fr":
         return Req(tag, log)
     if k == "fr_t":
@@ -123,7 +135,8 @@ def mk_branch(spec, tag, log):
 
 
 def kind_of(spec):
-    return {"source": "source", "fc": "fc", "fc_odd": "fc", "fc_t": "fc", "fr": "fr", "fr_t": "fr"}.get(spec[0], "seq")
+    return {"source": "source", "fc": "fc", "fc_odd": "fc", "fc_t": "fc", "fr": "fr", "fr_t": "fr",
+            "nested_fc": "fc", "nested_fr": "fr"}.get(spec[0], "seq")
 
 
 class RefBranch(object):
@@ -152,6 +165,8 @@ class RefBranch(object):
         return True
 
     def compute(self):
+        if self.spec[0] == "nested_fc":
+            return [((self.tag, j), "cmp", i, list(self.buf)) for j, nres in enumerate(self.spec[1:]) for i in range(nres)]
         nres = self.spec[1] if self.spec[0] in ("fc", "fc_odd") else self.spec[2]
         res = [(self.tag, "cmp", i, list(self.buf)) for i in range(nres)]
         if self.spec[0] == "fc_odd":
@@ -161,6 +176,10 @@ class RefBranch(object):
         return res
 
     def request(self):
+        if self.spec[0] == "nested_fr":
+            res = [((self.tag, j), "req", list(self.buf)) for j in range(self.spec[1])]
+            self.buf = []
+            return res
         r = (self.tag, "req", list(self.buf))
         self.buf = []
         return [("post", r)] if self.spec[0] == "fr_t" else [r]
@@ -250,6 +269,8 @@ spec_strat = st.one_of(
     st.builds(lambda k, n: ["fc_t", k, n], st.one_of(st.integers(0, 10), st.just(99)), st.integers(1, 2)),
     st.just(["fr"]),
     st.builds(lambda k: ["fr_t", k], st.one_of(st.integers(0, 10), st.just(99))),
+    st.builds(lambda ns: ["nested_fc"] + ns, st.lists(st.integers(0, 2), min_size=1, max_size=3)),
+    st.builds(lambda n: ["nested_fr", n], st.integers(1, 3)),
     st.just(["map"]), st.just(["map_t"]), st.just(["filt"]), st.just(["exp"]), st.just(["tail"]),
     st.builds(lambda k: ["slice", k], st.integers(0, 3)),
 )
@@ -290,6 +311,16 @@ def judge_run(case):
             c = log.count((i, "call"))
             if c != 1:
                 raise Violation("source-branch-call-count", "branch %d called %d times; %s" % (i, c, short(case)))
+        elif s[0] == "nested_fc":
+            for j in range(len(s) - 1):
+                c = log.count(((i, j), "compute"))
+                if c != 1:
+                    raise Violation("fill-compute-branch-compute-count", "nested branch %d.%d computed %d times; %s" % (i, j, c, short(case)))
+        elif s[0] == "nested_fr":
+            for j in range(s[1]):
+                c = log.count(((i, j), "request"))
+                if c != calls[i]:
+                    raise Violation("fill-request-branch-request-count", "nested branch %d.%d: request called %d times, expected %d; %s" % (i, j, c, calls[i], short(case)))
         elif kd == "fc":
             c = log.count((i, "compute"))
             if c != 1:
@@ -329,10 +360,12 @@ def common_case(draw):
     if typ in ("fc", "zip_fc"):
         specs = draw(st.lists(st.one_of(st.builds(lambda n: ["fc", n], st.integers(0, 3)),
                                         st.builds(lambda n: ["fc_odd", n], st.integers(1, 4)),
-                                        st.builds(lambda n: ["fc_t", 99, n], st.integers(1, 3))),
+                                        st.builds(lambda n: ["fc_t", 99, n], st.integers(1, 3)),
+                                        st.builds(lambda ns: ["nested_fc"] + ns, st.lists(st.integers(0, 3), min_size=1, max_size=2))),
                               min_size=1, max_size=3))
     elif typ in ("fr", "zip_fr"):
-        specs = draw(st.lists(st.one_of(st.just(["fr"]), st.just(["fr_t", 99])), min_size=1, max_size=3))
+        specs = draw(st.lists(st.one_of(st.just(["fr"]), st.just(["fr_t", 99]), st.builds(lambda n: ["nested_fr", n], st.integers(1, 2))),
+                              min_size=1, max_size=3))
     elif typ == "source":
         specs = draw(st.lists(st.builds(lambda n: ["source", n], st.integers(0, 3)), min_size=1, max_size=3))
     else:
@@ -451,7 +484,7 @@ def judge_invalid(case):
 
 CHECKS = [
     Check("run_schedule", judge_run, strategy=lambda tier: run_case() if tier != "thorough" else st.one_of(run_case(), run_case(big=True)), quick=3000, thorough=100000,
-          rule="0-4 branches from eleven tagged kinds (Source, bare and tuple fill/compute, bare and tuple fill/request with LenaStopFill at index k, "
+          rule="0-4 branches from thirteen tagged kinds (Source, bare and tuple fill/compute, nested Splits of one common type, bare and tuple fill/request with LenaStopFill at index k, "
                "map, filter, 1:n expander, per-block tail, Slice sequence) x bufsize in {1..4, n+1, 1000, None} x copy_buf x flows 0..10; exact output list "
                "and invocation counts. Non-trivial = >=2 branches of >=2 kinds over >=2 blocks, a LenaStopFill in a later block, or an empty flow with >=2 branches."),
     Check("common_type", judge_common, strategy=lambda tier: common_case(), quick=1200, thorough=30000,
